@@ -13,14 +13,16 @@ CASES_MODULE = "Cases.C26"
 HEADER = "From OCV Require Import Misc.Beans Misc.BeansOracle."
 AREA = "beans"
 ISOLATE = False
-TIMEOUT_MS = 20000
+TIMEOUT_MS = 90000
 LEVEL = "proof"
 SHRINK_KEY = None
 SHARD_SIZE = 4
 RULE = ("small programs of 2-3 threads (1-2 calls each out of get_or_default / get_mut_or_default / get_bean / "
         "init_bean over 1-2 names), cold (the factory itself is created under the race) or warm (a sequential "
         "prefix by the main thread first); for each program ALL interleavings of the real beans.rs source over "
-        "its atomic/map operations are enumerated by a depth-first controller, one forked process per execution, "
+        "its atomic/map operations are enumerated by a depth-first controller (a forked process per execution for "
+        "cold programs; within a time budget, after which the enumeration is reported incomplete and only "
+        "inclusion in the model's set is checked), "
         "and the SET of outcomes (returned instances per call, later lookups) is compared inside Coq with the "
         "model's all_outcomes; plus barrier runs without any shim: k real threads, a Default that sleeps; "
         "non-trivial = the program has at least two threads racing for one name, or a barrier with k >= 2; "
@@ -54,9 +56,10 @@ def _prog_size(threads, seq0):
     return tot
 
 
-def _case(threads, seq0, max_execs):
+def _case(threads, seq0, max_execs, budget_ms=12000):
     names = sorted({c["n"] for t in threads for c in t})
-    return {"mode": "dfs", "seq0": seq0, "threads": threads, "finals": names, "max_execs": max_execs}
+    return {"mode": "dfs", "seq0": seq0, "threads": threads, "finals": names, "max_execs": max_execs,
+            "budget_ms": budget_ms}
 
 
 def _call(kind, n):
@@ -77,15 +80,16 @@ FIXED = [
 
 
 def gen(rng, tier):
-    budget = {"quick": 260, "thorough": 4000, "search": 260}[tier]
-    nrand = {"quick": 10, "thorough": 60, "search": 16}[tier]
+    budget = {"quick": 260, "thorough": 3000, "search": 260}[tier]
+    nrand = {"quick": 10, "thorough": 48, "search": 16}[tier]
+    ms = {"quick": 12000, "thorough": 100000, "search": 12000}[tier]
     cases = []
     for threads, seq0 in FIXED:
-        cases.append(_case(threads, seq0, budget))
+        cases.append(_case(threads, seq0, budget, ms))
     tries = 0
     while len(cases) < len(FIXED) + nrand and tries < 2000:
         tries += 1
-        seq0 = rng.random() < 0.5
+        seq0 = rng.random() < 0.7      # cold programs need a process per execution: fewer of them
         nthreads = rng.choice([2, 2, 3]) + (1 if seq0 else 0)
         nnames = rng.choice([1, 1, 2])
         threads = []
@@ -99,7 +103,7 @@ def gen(rng, tier):
                 continue
         elif size > budget:
             continue
-        cases.append(_case(threads, seq0, budget))
+        cases.append(_case(threads, seq0, budget, ms))
     ks = {"quick": [2, 4, 8], "thorough": [2, 3, 4, 8, 16], "search": [4, 8]}[tier]
     for k in ks:
         cases.append({"mode": "barrier", "k": k, "sleep_ms": 100, "isolate": True})
@@ -107,7 +111,7 @@ def gen(rng, tier):
 
 
 def key(case):
-    return json.dumps({k: case[k] for k in case if k not in ("id", "origin", "max_execs")}, sort_keys=True)
+    return json.dumps({k: case[k] for k in case if k not in ("id", "origin", "max_execs", "budget_ms")}, sort_keys=True)
 
 
 def _gcall(c):
